@@ -79,7 +79,9 @@ def decode_line(x: str, idx: int, has_c: bool, matches: bool) -> bool:
     else:
         groups = (a, word)
     _LINE_RUN[0] += 1
-    line = "the line of run %d" % _LINE_RUN[0]       # unique per explored path (see h_track.fresh_lines)
+    # unique per explored path (see h_track.fresh_lines) and with the literal skeleton of its kind, so
+    # that code which pre-filters on the text before using the (stubbed) recogniser sees such a line
+    line = K.SKELETON[kind] % _LINE_RUN[0]
     with H.patched((cls, "_regex_prog", _Prog(groups, matches))):
         try:
             d = cls.from_chart_line(line)
